@@ -135,7 +135,7 @@ def const_ns():
     from kirin.dialects import ilist
     g = Grid.from_positions([0.0, 1.0, 2.5], [0.0, 2.0])
     from kirin import types
-    return {"CONST_GRID": g, "CONST_FILLED": FilledGrid.vacate(g, [(0, 0)]), "CONST_FILLED_VIEW": FilledGrid.vacate(g, [(0, 0), (1, 1)])[0:2, 0:2],
+    return {"CONST_GRID": g, "CONST_FILLED": FilledGrid.vacate(g, [(0, 0)]), "CONST_FILLED_VIEW": FilledGrid.vacate(g, [(0, 0), (1, 1)])[0:2, 0:2], "CONST_FULL": FilledGrid.vacate(g, []),
             "CONST_SITES": ilist.IList([(0, 1), (2, 0)], elem=types.Tuple[types.Int, types.Int]),
             "CONST_INTS": ilist.IList([0, 1], elem=types.Int), "CONST_FLOATS": ilist.IList([0.0, 1.5], elem=types.Float)}
 
@@ -247,6 +247,44 @@ def arch_spec_option(ctx, ws, wcat):
                          f"@move{dec} {got} a move kernel that plays a device function it received from outside ({label}): {why}")
             else:
                 ctx.nt(("device-function-from-outside", label, dec))
+    # a CLOSURE handed out by a tweezer kernel as the move function of a device function (the tracer accepts closures)
+    try:
+        from bloqade.shuttle.codegen.taskgen import TraceInterpreter
+        outer = kernels.define("@tweezer\ndef outer():\n    def inner(a: float, b: float):\n        action.set_loc(grid.from_positions([a], [b]))\n    return inner\n")["outer"]
+        CLO = TraceInterpreter(tweezer_prog.harness_spec()).run(outer, ())
+        for dec in ("", "(fold=False)", "(arch_spec=SPEC)"):
+            for body in ("    f = schedule.device_fn(CLO, [0], [0])\n    f(x, 2.0)\n", "    f = schedule.device_fn(CLO, [0], [0])\n    schedule.reverse(f)(1.0, 2.0)\n"):
+                src = f"@move{dec}\ndef main(x: float):\n{body}"
+                got, why = try_define(src, SPEC=SP, CLO=CLO)
+                ctx.evaluations += 1
+                if got != "accepted":
+                    ctx.fail({"wrapper": "schedule.device_fn over a closure", "kind": "move", "got": got, "documented": "accept", "option": dec},
+                             {"src": src, "expected": "accepted", "option_spec": "name known under every kind", "needs": "CLO = the closure a tweezer kernel returns"},
+                             f"@move{dec} {got} a move kernel whose device function wraps a closure returned by a tweezer kernel: {why}")
+                else:
+                    ctx.nt(("device-fn-over-closure", dec, body))
+    except Exception as e:
+        ctx.obligation("a closure can be obtained from a tweezer kernel", False, f"{type(e).__name__}: {e}"[:200])
+    # compositions of the filled-grid vocabulary over constants (a zone with vacancies, a view of it, a COMPLETELY filled zone): what one
+    # wrapper hands out is a legal operand of the next, for every kernel kind
+    firsts = {"shift": "filled.shift({C}, 1.0, 0.0)", "scale": "filled.scale({C}, 2.0, 1.0)", "repeat": "filled.repeat({C}, 2, 1, 30.0, 1.0)", "vacate": "filled.vacate({C}, [(0, 0)])",
+              "fill": "filled.fill({C}, [(0, 0), (1, 1)])", "sub_grid": "grid.sub_grid({C}, [0, 1], [0])", "itself": "{C}"}
+    seconds = {"get_parent": "filled.get_parent(r1)", "shift": "filled.shift(r1, 0.5, 0.5)", "vacate": "filled.vacate(r1, [(1, 0)])", "repeat": "filled.repeat(r1, 1, 2, 1.0, 30.0)",
+               "positions": "grid.positions(r1)", "index": "r1[0:1, 0:1]"}
+    k = 0
+    for cname in ("CONST_FILLED", "CONST_FILLED_VIEW", "CONST_FULL"):
+        for (fn, f1), (sn, f2) in itertools.product(firsts.items(), seconds.items()):
+            for kind in KINDS:
+                src = f"@{kind}\ndef main():\n    r1 = {f1.replace('{C}', cname)}\n    r2 = {f2}\n    return r2\n"
+                got, why = try_define(src)
+                ctx.evaluations += 1
+                k += 1
+                if got != "accepted" and not (why.startswith("TypeCheckError") and kind != "tweezer"):
+                    ctx.fail({"wrapper": f"filled composition {fn} then {sn}", "kind": kind, "got": got, "documented": "accept", "constant": cname},
+                             {"src": src, "expected": "accepted"}, f"@{kind} {got} a kernel composing {fn} and {sn} over the constant {cname}: {why}")
+                else:
+                    ctx.nt(("filled-composition", cname, fn, sn, kind))
+    ctx.count("compositions of two filled-grid wrappers over three kinds of constants x kernel kinds", k)
 
 
 def run(ctx):
@@ -399,5 +437,9 @@ def replay(data):
     for mn, n, b, d in wrappers():          # fills the table of declared operand types the annotated forms refer to
         one_statement_kernels("move", mn, n, b)
     extra = {"SPEC": option_specs()[inp["option_spec"]]} if inp.get("option_spec") else {}
+    if inp.get("needs"):
+        from bloqade.shuttle.codegen.taskgen import TraceInterpreter
+        outer = kernels.define("@tweezer\ndef outer():\n    def inner(a: float, b: float):\n        action.set_loc(grid.from_positions([a], [b]))\n    return inner\n")["outer"]
+        extra["CLO"] = TraceInterpreter(tweezer_prog.harness_spec()).run(outer, ())
     got, why = try_define(inp["src"], **extra)
     return got != inp["expected"], f"{got} ({why}), documented: {inp['expected']}"
